@@ -26,7 +26,7 @@ from vf.ob import Symx
 
 LEVEL = "model_checking"
 ASSUMPTIONS = [
-    "export = SaveHar.make_har + json.dumps(indent=4).encode() (what SaveHar.export_har writes for a .har path); import = FlowReader.stream on those bytes",
+    "export = the real SaveHar.export_har with `open` in savehar's namespace redirected to an in-memory file; import = FlowReader.stream on those bytes",
     "flows are complete HTTP flows with a response (no error flows, no websocket messages); Host header / authority agree with the request host",
     "json, zlib, brotli, base64 are C code and run on concrete per-path values",
     "Content-Length is exempt on both messages (weaker reading); header names compare case-insensitively; order is demanded only among fields of the same name",
@@ -38,7 +38,7 @@ OUTSIDE = [
     "request bodies with a Content-Encoding; trailers",
 ]
 ENCODED = [
-    "mitmproxy.addons.savehar:SaveHar.make_har", "mitmproxy.addons.savehar:SaveHar.flow_entry", "mitmproxy.addons.savehar:SaveHar.format_multidict",
+    "mitmproxy.addons.savehar:SaveHar.export_har", "mitmproxy.addons.savehar:SaveHar.make_har", "mitmproxy.addons.savehar:SaveHar.flow_entry", "mitmproxy.addons.savehar:SaveHar.format_multidict",
     "mitmproxy.addons.savehar:SaveHar.format_response_cookies", "mitmproxy.io.har:request_to_flow", "mitmproxy.io.har:fix_headers",
     "mitmproxy.io.io:FlowReader.stream", "mitmproxy.http:Request.make",
 ]
@@ -101,8 +101,29 @@ def fields(headers):
     return d
 
 
+class _MemFile(io.BytesIO):
+    def close(self):  # keep the bytes readable after export_har's `with open(...)` block
+        self.saved = self.getvalue()
+        super().close()
+
+
 def export_import(flows):
-    har = json.dumps(savehar.SaveHar().make_har(flows), indent=4).encode()
+    """the REAL SaveHar.export_har writes the file (its `open` is redirected to memory: nothing touches the disk),
+    the real FlowReader reads those bytes back"""
+    mem = _MemFile()
+    saved_open = savehar.__dict__.get("open", None)
+    savehar.open = lambda path, mode="r", *a, **k: mem
+    lvl = savehar.logging.getLogger().level
+    try:
+        savehar.logging.disable(savehar.logging.CRITICAL)
+        savehar.SaveHar().export_har(flows, "/nonexistent/verif-c41.har")
+    finally:
+        savehar.logging.disable(savehar.logging.NOTSET)
+        if saved_open is None:
+            del savehar.open
+        else:
+            savehar.open = saved_open
+    har = mem.saved
     return har, list(mio.FlowReader(io.BytesIO(har)).stream())
 
 
